@@ -8,3 +8,5 @@ cd harness
 cargo build --profile vf --workspace 2>&1 | tail -5
 # C14 needs the same crate built with the repository's `concurrent` feature as well
 VERIF_ROOT="$(cd .. && pwd)" ./vf-conc/run.sh --build-only
+# coverage-guided fuzz target for C06 (libFuzzer + ASan, nightly toolchain)
+cargo +nightly fuzz build --fuzz-dir ../fuzz proof_bytes 2>&1 | tail -2
